@@ -182,7 +182,9 @@ def neighbors(
     )
     # pylint: disable-next=protected-access
     if cached is not Vertex._QA_NB_INVALID:
-        return cached
+        # hand out a copy: the caller may do what they like with the list
+        # without altering the cached answer
+        return list(cached)
 
     nbs = []
     for link in vert.links:
@@ -303,7 +305,7 @@ def neighbors(
     # see note near top of function about justification for this ignore
     # pylint: disable-next=protected-access
     vert._qa_neighbors_insert(
-        nbs, direction_sensitive, unknown_handling, filterfunc
+        list(nbs), direction_sensitive, unknown_handling, filterfunc
     )
 
     return nbs
